@@ -29,6 +29,12 @@ def tasks(tier):
                 T.append(Task(cls, 'solveInternalDerivatives', None, cfg))
                 for d in range(D):
                     T.append(Task(cls, 'solveQuintic' if cls == 'QuinticSplineND' else 'solveSepticSpline', 0, cfg, gen_options={'focus': d}, label='DIM=%d,coord=%d' % (D, d)))
+            T.append(Task(cls, 'initializePPoly', 0, cfg))
+            for d in range(D):
+                lab = 'DIM=%d,coord=%d' % (D, d)
+                T.append(Task(cls, 'updateSplineInternal', 0, cfg, gen_options={'focus': d}, label=lab))
+                T.append(Task(cls, 'update', 4, cfg, gen_options={'focus': d}, label=lab + ',durations'))
+                T.append(Task(cls, 'update', 3, cfg, gen_options={'focus': d}, label=lab + ',time_points'))
     return T
 
 
